@@ -8,7 +8,8 @@ set -u
 N=${1:-4}
 cd /verif || exit 2
 HEAD=$(git -C /repo rev-parse HEAD)
-ls -d seeded/*/ | sed 's#/$##' > /tmp/seedlist.$$
+# SEED_FILTER (a regular expression on the directory name) restricts the run; the result file then holds those rows only
+ls -d seeded/*/ | sed 's#/$##' | grep -E "${SEED_FILTER:-.}" > /tmp/seedlist.$$
 for k in $(seq 0 $((N-1))); do
   L=/tmp/seedlane$k; rm -rf $L; mkdir -p $L
   rsync -a --exclude .git --exclude replays --exclude evidence-thorough /verif/ $L/verif/
